@@ -406,7 +406,10 @@ def decide(prop, tier, seed):
         raise Undecided('no-obligations', 'the run generated no proof obligations')
     os.makedirs(EVID, exist_ok=True)
     with open(os.path.join(EVID, '%s.json' % prop), 'w') as f:
-        json.dump(evidence, f, indent=1, default=str)
+        # generated files carry a per-process suffix while the run is in progress (concurrent checks share
+        # units); they are renamed to gen/<unit>.rs when the run ends, and that is the name recorded
+        text = json.dumps(evidence, indent=1, default=str)
+        f.write(re.sub(r'\b(U\d+[a-z]?)_p\d+\b', r'\1', text))
     if rc == 0 and cfg.get('level') == 'exploration':
         print('OK property=%s tier=%s (bounded stand-in only) evaluations=%d wall=%.1fs' % (prop, tier, evaluations, time.time() - t0))
     elif rc == 0:
